@@ -112,6 +112,8 @@ func execute(sc *Scenario, prop string, hist []string) *obs {
 		}
 		if isAction(l) {
 			doAction(s, l)
+		} else if base, k, act, ok := pausedLetter(l); ok {
+			deliverPaused(s, base, k, act)
 		} else {
 			s.Deliver(netsim.Letters[l])
 		}
@@ -140,6 +142,56 @@ func execute(sc *Scenario, prop string, hist []string) *obs {
 	}
 	o.snapshot()
 	return o
+}
+
+// pausedLetter parses "<letter>@<k>" / "<letter>@<k>+<action>": the peer sends the first k bytes of
+// the message, pauses, and sends the rest; with an action, the embedding program performs it during
+// the pause (from another goroutine, as a block manager would) - it may have to wait for the node.
+func pausedLetter(l string) (base string, k int, action string, ok bool) {
+	i := strings.LastIndex(l, "]@")
+	if i < 0 {
+		return "", 0, "", false
+	}
+	base = l[:i+1]
+	rest := l[i+2:]
+	if j := strings.Index(rest, "+"); j >= 0 {
+		action = rest[j+1:]
+		rest = rest[:j]
+	}
+	if _, err := fmt.Sscanf(rest, "%d", &k); err != nil {
+		return "", 0, "", false
+	}
+	b, have := netsim.Letters[base]
+	if !have || k <= 0 || k >= len(b) {
+		return "", 0, "", false
+	}
+	return base, k, action, true
+}
+
+func deliverPaused(s *netsim.Session, base string, k int, action string) {
+	b := netsim.Letters[base]
+	s.Deliver(b[:k])
+	settleNoPing(s, 2*time.Second) // the node has consumed the first part and waits for more
+	done := make(chan struct{})
+	if action != "" {
+		go func() {
+			doAction(s, action)
+			close(done)
+		}()
+		// give the action time to get as far as it can while the node is blocked in its read (it
+		// either returns or waits for that read); how far it gets only selects the interleaving
+		select {
+		case <-done:
+		case <-time.After(100 * time.Millisecond):
+		}
+	} else {
+		close(done)
+	}
+	s.Deliver(b[k:])
+	select {
+	case <-done:
+	case <-time.After(5 * time.Second):
+	}
 }
 
 func doAction(s *netsim.Session, l string) {
